@@ -7,7 +7,8 @@ R06.4 v-^2 = min(vw^2, cs-^2) (hybrids leave at the sound speed); template v- = 
 R06.5 weak-detonation branch: root bracketed between Tn and the minimiser of the same residual
 R06.6 fastest deflagration / slowest detonation / minimal velocity bookkeeping
 
-Recognition is by role: nested helper functions are identified as "the function handed to root_scalar / minimize_scalar", locals by what
+Recognition is by role: helper functions are identified as "the function handed to root_scalar / minimize_scalar" (nested function, method,
+module-level function, lambda, functools.partial; evaluated with the solver's `args=` bound: `_solver_function`), locals by what
 is assigned to them, temperatures as "element k of the tuple returned by findMatching" (through any local helper or unpacking), and
 expressions are compared through normal forms / terms.
 """
@@ -565,6 +566,85 @@ def _callable(S, fi, f):
     return None
 
 
+# ------------------------------------------------------------------------------------------------ the function a scipy solver evaluates, by role
+#
+# `root_scalar(f, args=(a, b), ..)` / `minimize_scalar(fun, args=(a, b), ..)` evaluate  x -> f(x, a, b).  The function is identified by its role
+# (the argument `f` / `fun` of the call): a nested function, a method `self.m`, a module-level function, a lambda, any of them held in a local or
+# wrapped in functools.partial (c03._resolve_callable); the values of `args=` are bound to the parameters that follow the unknown (c03._bind writes
+# them as assignments at the top of a copy of the body, expressed in the primary names of the calling routine).  Everything downstream reads one
+# ordinary one-parameter function; two solver calls evaluate "the same function" when the definition AND every bound value agree.
+
+SOLVER_ARGS_POS = {"root_scalar": 1, "minimize_scalar": 3}
+
+
+class _SolverFunction:
+    def __init__(self, fi, free, base, skip_first):
+        self.fi = fi                      # FuncInfo: bound parameters are assigned at the top of the body
+        self.free = free                  # the parameters that are still free (without self / cls of a bound method)
+        self.base = base                  # the function as defined
+        self.skip_first = skip_first
+
+    def ident(self):
+        return id(self.base.node), ast.dump(self.fi.node)
+
+
+def _stable_reads(S, fo, values) -> bool:
+    """every local of the routine that a bound value still reads (after its temporaries were replaced by their definitions) is bound at most once in
+    the routine: the value does not depend on where in the routine the solver is called"""
+    co = Ctx(S, fo)
+    for e in values:
+        for y in ast.walk(co.resolve(e)):
+            if isinstance(y, ast.Name) and y.id not in ("self", "cls") and len(_stores(fo, y.id)) > 1:
+                return False
+    return True
+
+
+def _solver_function(S, fo, call, kw: str = "f", pos: int = 0):
+    """the _SolverFunction that the solver call `call` of routine fo evaluates, or None when the callable / its `args=` are not understood"""
+    from .c03 import _bind, _definition, _resolve_callable
+    f = kwarg(call, kw, pos)
+    if f is None:
+        return None
+    try:
+        r = _resolve_callable(S, fo, f)
+        if r is None:
+            return None
+        fi = r.fi
+        a = fi.node.args
+        if a.vararg is not None or a.kwarg is not None:
+            return None
+        free = [x.arg for x in a.posonlyargs + a.args][1 if r.skip_first else 0:]
+        bound = dict(r.bound)
+        short = (dotted(call.func) or "").split(".")[-1]
+        extra = kwarg(call, "args", SOLVER_ARGS_POS.get(short))
+        if extra is not None:
+            extra = _definition(Ctx(S, fo), extra)
+            # (scipy wraps a non-tuple into a 1-tuple; only the written-out tuple is decoded)
+            if not isinstance(extra, ast.Tuple) or any(isinstance(e, ast.Starred) for e in extra.elts) or len(extra.elts) > len(free) - 1:
+                return None
+            if extra.elts:
+                fi, given = _bind(S, fo, fi, [], dict(zip(free[1:], extra.elts)), r.skip_first)
+                free = free[:1] + free[1 + len(extra.elts):]
+                bound.update(given)
+        return _SolverFunction(fi, free, r.base, r.skip_first) if _stable_reads(S, fo, bound.values()) else None
+    except Undecided:
+        return None
+
+
+def _solver_callable(S, fo, call, kw: str = "f", pos: int = 0):
+    """(free parameter names, returned expression with the bound values and the function's own temporaries substituted, scope) of the function a
+    solver call evaluates when its body is straight-line code ending in one return (the counterpart of `_callable` for a callable by role)"""
+    sf = _solver_function(S, fo, call, kw, pos)
+    if sf is None:
+        return None
+    h = sf.fi
+    body = [st for st in h.node.body if not (isinstance(st, ast.Expr) and isinstance(st.value, ast.Constant) and isinstance(st.value.value, str))]
+    if body and isinstance(body[-1], ast.Return) and body[-1].value is not None and all(isinstance(st, (ast.Assign, ast.AnnAssign)) for st in body[:-1]):
+        keep = set(sf.free) | {"self", "cls"}
+        return list(sf.free), Ctx(S, h).resolve(body[-1].value, keep=keep, helpers=False), h
+    return None
+
+
 def _cidx(sl):
     if isinstance(sl, ast.Constant) and isinstance(sl.value, int) and not isinstance(sl.value, bool):
         return sl.value
@@ -665,6 +745,17 @@ def _side_conflicts(S, fq) -> list:
     """comparisons / differences between a temperature of a matching (element 2 = T+, 3 = T-) and a range bound of the other phase"""
     out = []
     scopes = [fq] + _nested_funcs(S, fq, 2)
+    # a parametrised function handed to a solver with `args=`: read per call site, with the bound values in place of its parameters
+    for short, kw in (("root_scalar", "f"), ("minimize_scalar", "fun")):
+        for c in calls_in(fq.node, short):
+            sf = _solver_function(S, fq, c, kw, 0) if kwarg(c, "args", SOLVER_ARGS_POS[short]) is not None else None
+            if sf is None:
+                continue
+            node, cs = copy.deepcopy(sf.fi.node), Ctx(S, sf.fi)
+            for r in own_nodes(node):
+                if isinstance(r, ast.Return) and r.value is not None:
+                    r.value = cs.resolve(r.value, keep=set(sf.free) | {"self", "cls"}, helpers=False)
+            scopes.append(FuncInfo(sf.fi.module, sf.fi.qual, ast.fix_missing_locations(node), sf.fi.cls, sf.fi.parent))
     for sc in scopes:
         for x in own_nodes(sc.node):
             pair = None
@@ -694,13 +785,14 @@ def r06_1(chk: Check):
     fo = S.func(f"{HY}.findJouguetVelocity")
     cxo = Ctx(S, fo)
     roots = calls_in(fo.node, "root_scalar")
-    fnames = {kwarg(c, "f", 0).id if isinstance(kwarg(c, "f", 0), ast.Name) else None for c in roots}
-    if not roots or len(fnames) != 1 or None in fnames:
-        raise AnchorMissing("findJouguetVelocity: the root_scalar call(s) on one local function not found")
-    DN = fnames.pop()
-    fd = _local_func(S, fo, DN)
-    if fd is None or len(fd.params()) != 1:
-        raise AnchorMissing("findJouguetVelocity: the local one-parameter function handed to root_scalar not found")
+    # the function whose root is searched, by role (with the values of `args=` bound): every root_scalar call evaluates the same one
+    sfs = [_solver_function(S, fo, c) for c in roots]
+    if not roots or any(s_ is None for s_ in sfs):
+        raise AnchorMissing("findJouguetVelocity: the function handed to the root_scalar call(s) not found")
+    same_fn = len({s_.ident() for s_ in sfs}) == 1          # (reported with the root obligation below)
+    if len(sfs[0].free) != 1:
+        raise AnchorMissing("findJouguetVelocity: the one-parameter function handed to root_scalar not found")
+    fd = sfs[0].fi
     chk.touch(fo.name, fd.name)
     exo = hydro_extractor(S)
     outer = {"__module__": "hydrodynamics", "__class__": "Hydrodynamics"}
@@ -714,7 +806,7 @@ def r06_1(chk: Check):
             outer = e_
     Tn = exo.sym("self.Tnucl")
     tm = exo.sym("tm")
-    val = exo.single(fd, {fd.params()[0]: tm}, outer)
+    val = exo.single(fd, {sfs[0].free[0]: tm}, outer)
     pH, eH = th("pHighT")(Tn), th("eHighT")(Tn)
     front = {a for a in val.atoms(sp.Function) if isinstance(a, sp.core.function.AppliedUndef) and a.func.__name__.startswith("thermodynamics.") and a.func.__name__.endswith("HighT")}
     chk.ob("R06.1", fo.where(), "the high-T data of the Jouguet condition are p+(Tn), e+(Tn) (undisturbed plasma in front of a detonation)",
@@ -757,7 +849,8 @@ def r06_1(chk: Check):
            key="vJ-value", how=how)
     g = CFG(fo.node)
     raises = len(RES) == 1 and _never_returns_when(g, f"{next(iter(RES))}.converged", None, False) if RES else False
-    chk.ob("R06.1", fo.where(), "T-sol is the root of vpDerivNum (bracketed or secant) and a non-converged root raises", bool(raises), key="root")
+    chk.ob("R06.1", fo.where(), "T-sol is the root of vpDerivNum (bracketed or secant) and a non-converged root raises", bool(raises) and same_fn,
+           "" if same_fn else "the root searches evaluate different functions (or the same function with different bound arguments)", key="root")
     okb = False
     for c in roots:
         b = kwarg(c, "bracket")
@@ -957,9 +1050,10 @@ def r06_5(chk: Check):
     g = CFG(fo.node)
     mins = calls_in(fo.node, "minimize_scalar")
     roots = calls_in(fo.node, "root_scalar")
-    fmin = kwarg(mins[0], "fun", 0) if len(mins) == 1 else None
-    froot = kwarg(roots[0], "f", 0) if len(roots) == 1 else None
-    ok = isinstance(fmin, ast.Name) and isinstance(froot, ast.Name) and fmin.id == froot.id and _local_func(S, fo, fmin.id) is not None
+    # (by role: the function handed to each solver with the solver's `args=` bound -- the same definition evaluated with the same bound values)
+    fmin = _solver_function(S, fo, mins[0], "fun", 0) if len(mins) == 1 else None
+    froot = _solver_function(S, fo, roots[0], "f", 0) if len(roots) == 1 else None
+    ok = fmin is not None and froot is not None and fmin.ident() == froot.ident() and len(fmin.free) == 1
     chk.ob("R06.5", fo.where(), "the detonation root and the bracketing minimisation use the same residual function", ok, key="same-residual")
     M = [st.targets[0].id for st in own_nodes(fo.node) if isinstance(st, ast.Assign) and mins and st.value is mins[0] and isinstance(st.targets[0], ast.Name)]
     R = [st.targets[0].id for st in own_nodes(fo.node) if isinstance(st, ast.Assign) and roots and st.value is roots[0] and isinstance(st.targets[0], ast.Name)]
@@ -1011,8 +1105,8 @@ def r06_6(chk: Check):
     kinds = {}
     shown = []
     for var, c, F in _root_vars(S, ff):
-        cl = _callable(S, ff, F) if F is not None else None
-        hit = _elem_minus_bound(S, cl[2], cl[1], BOUNDS) if cl is not None and len([p for p in cl[0] if p != "self"]) == 1 else None
+        cl = _solver_callable(S, ff, c) if F is not None else None
+        hit = _elem_minus_bound(S, cl[2], cl[1], BOUNDS) if cl is not None and len(cl[0]) == 1 else None
         if hit is not None:
             (prod, call, k), bound = hit
             shown.append(f"{prod}[{k}] - {bound}")
@@ -1079,7 +1173,7 @@ def r06_6(chk: Check):
     shown = [n(r.value) for r in rets]
     if len(rv) == 1 and rv[0][0]:
         V, c, F = rv[0]
-        cl = _callable(S, fs, F) if F is not None else None
+        cl = _solver_callable(S, fs, c) if F is not None else None
         hit = _elem_minus_bound(S, cl[2], cl[1], BOUNDS) if cl is not None and len(cl[0]) == 1 else None
         okF = hit is not None and hit[0][0] == "findMatching" and hit[0][2] == 3 and hit[1] == "self.TMaxLowT" and eqx(kwarg(hit[0][1], "vwTry", 0), cl[0][0])
         ex = Extractor(S)
@@ -1124,7 +1218,7 @@ def r06_6(chk: Check):
     roots = calls_in(fmn.node, "root_scalar")
     ok = False
     if len(roots) == 1:
-        cl = _callable(S, fmn, kwarg(roots[0], "f", 0)) if kwarg(roots[0], "f", 0) is not None else None
+        cl = _solver_callable(S, fmn, roots[0]) if kwarg(roots[0], "f", 0) is not None else None
         b = kwarg(roots[0], "bracket")
         ok = cl is not None and len(cl[0]) == 1 and eqx(cl[1], f"self.strongestShock({cl[0][0]}) - self.Tnucl", Ctx(S, cl[2])) \
             and b is not None and (eqx(b, "(self.vBracketLow, self.vJ)", cm) or eqx(b, "[self.vBracketLow, self.vJ]", cm))
@@ -1148,3 +1242,10 @@ def rules(chk: Check) -> None:
     chk.stage(jouguet_compared_with_wall_velocity, chk, "R06.8")
     from .shared import per_object_state
     chk.stage(per_object_state, chk, "R06.8", ("Hydrodynamics", "HydrodynamicsTemplateModel", "Thermodynamics", "FreeEnergy", "InterpolatableFunction"))
+    # R06.9: the template's shooting bracket excludes the region of negative enthalpy by cutting its UPPER end; tiny offsets of bracket ends point inward
+    # (shared with C15 R15.9 / C05 R05.7): an admissible deflagration is not lost to a bracket on the unphysical side
+    from ..core import Remap as _Remap9
+    from . import c15 as _c15
+    from .shared import bracket_offsets_inward
+    chk.stage(_c15.r15_9, _Remap9(chk, {"R15.9": "R06.9"}))
+    chk.stage(bracket_offsets_inward, chk, "R06.9", ("hydrodynamics", "hydrodynamicsTemplateModel"), 1)
